@@ -23,7 +23,6 @@ import (
 	"runtime"
 	"sort"
 	"strings"
-	"sync"
 	"sync/atomic"
 	"time"
 
@@ -53,7 +52,7 @@ type replay struct {
 
 func contextsFor(cs *Case, idx int, thorough bool) []ctxSpec {
 	all := []int{kTip, kReorg, kDeferred, kOrphan, kTemplate, kReopen, kFork, kForkBad, kReopenReorg, kReopenDeferred, kOrphanReorg,
-		kHeaderFirst, kHeaderFirstReorg, kChildAfter}
+		kHeaderFirst, kHeaderFirstReorg, kChildAfter, kReorgDeep}
 	var out []ctxSpec
 	if thorough {
 		for _, k := range all {
@@ -74,7 +73,7 @@ func contextsFor(cs *Case, idx int, thorough bool) []ctxSpec {
 		{kTip, a}, {kTip, b}, {kReorg, a}, {kReorg, b},
 		{kDeferred, b}, {kOrphan, a}, {kTemplate, b}, {kReopen, a},
 		{kFork, b}, {kForkBad, a}, {kReopenReorg, b}, {kReopenDeferred, a}, {kOrphanReorg, b},
-		{kHeaderFirst, a}, {kHeaderFirstReorg, b}, {kChildAfter, a},
+		{kHeaderFirst, a}, {kHeaderFirstReorg, b}, {kChildAfter, a}, {kReorgDeep, b},
 	}
 }
 
@@ -131,8 +130,6 @@ func main() {
 	}
 	plans := make([]*plan, len(cat.cases))
 	var labelErr atomic.Value
-	exact := map[string]int{}
-	var mu sync.Mutex
 	ev.Par(len(cat.cases), runtime.NumCPU(), func(i int) {
 		cs := cat.cases[i]
 		if cs.ParentH < 2 {
@@ -150,9 +147,6 @@ func main() {
 			labelErr.Store(cs.Key() + ": " + msg)
 			return
 		}
-		mu.Lock()
-		exact[cs.Rule+"/"+cs.Side] = 1
-		mu.Unlock()
 		pl := mkPlan(cs, i)
 		plans[i] = pl
 		// filler blocks must be valid (UBad: exactly the coinbase value)
@@ -177,6 +171,12 @@ func main() {
 			su = chk(u, su, nil)
 		}
 		chk(pl.UBad, su, []string{"cb-value"})
+		if len(pl.X) == 3 {
+			sx := st[cs.ParentH-3]
+			for _, x := range pl.X {
+				sx = chk(x, sx, nil)
+			}
+		}
 	})
 	if e := labelErr.Load(); e != nil {
 		r.Broken("label check failed: %v", e)
@@ -186,13 +186,18 @@ func main() {
 	phase("labels")
 	// 3. jobs
 	var jobs []job
+	skipped := 0
 	byRule := map[string]map[string]*plan{}
 	for i, cs := range cat.cases {
 		if byRule[cs.Rule] == nil {
 			byRule[cs.Rule] = map[string]*plan{}
 		}
 		byRule[cs.Rule][cs.Side] = plans[i]
-		for _, k := range contextsFor(cs, i, thorough) {
+		for _, k := range contextsFor(cs, i, thorough || r.ReplayPath != "") {
+			if plans[i].skip[k.Kind] {
+				skipped++
+				continue
+			}
 			jobs = append(jobs, job{pl: plans[i], ctx: k, name: k.Name()})
 		}
 	}
@@ -329,15 +334,16 @@ func main() {
 	}
 	sort.Strings(cl)
 	r.Set("bounds", map[string]interface{}{
-		"rules":                       len(ruleSet),
-		"candidates_valid_at_limit":   nAt,
-		"candidates_invalid_past":     nPast,
-		"violation_classes_injected":  cl,
-		"contexts":                    ctxCount,
-		"parameter_sets":              paramSets(cat),
-		"utxo_cache_sizes":            []uint64{0, bigCache},
-		"base_chain_max_height":       maxHeight(cat),
-		"contexts_with_mixed_verdict": disagree,
+		"rules":                                   len(ruleSet),
+		"candidates_valid_at_limit":               nAt,
+		"candidates_invalid_past":                 nPast,
+		"violation_classes_injected":              cl,
+		"contexts":                                ctxCount,
+		"parameter_sets":                          paramSets(cat),
+		"utxo_cache_sizes":                        []uint64{0, bigCache},
+		"base_chain_max_height":                   maxHeight(cat),
+		"contexts_with_mixed_verdict":             disagree,
+		"contexts_skipped_for_unequal_chain_work": skipped,
 	})
 	r.Add("non_rule_errors_returned_for_invalid_blocks", int64(nonRule))
 	for i := 0; i < len(jobs) && i < 2000; i += 97 {
